@@ -619,11 +619,57 @@ pub fn stages(ctx: &Ctx) -> Vec<Stage> {
         let cfg = Cfg { t0: 0.0, t1: dt_max * steps, dt_min: dt_max * 1e-7, dt_max, tol };
         fault_case(rep, solver, &prob, &cfg, if p % 2 == 0 { DimMode::Static } else { DimMode::Dynamic }, 1);
     }));
+    // (3) valid configurations far from the enumerated values: every complete configuration with
+    // t1 > t0, 0 < dt_min <= dt_max and tol > 0 must build, whatever the scales involved (start
+    // times up to 1e10 in magnitude, minimum steps below the spacing of the floats at the start
+    // time, tolerances from 1e-16 to 1) and whatever the order of the builder calls.
+    let nsc = tier.pick(21_000u64, 420_000u64);
+    st.push(Stage::new("valid-configurations-across-scales", nsc, move |i, rep| {
+        let mut rng = Rng::for_case(seed, "c06-scales", i);
+        let solver = Solver::ALL[(i % 7) as usize];
+        let t0 = match rng.below(5) {
+            0 => 0.0,
+            1 => rng.sign() * rng.log10(-3.0, 1.0),
+            _ => rng.sign() * rng.log10(1.0, 10.0),
+        };
+        let ulp = (t0.abs() * f64::EPSILON).max(f64::MIN_POSITIVE);
+        let span = rng.log10(-6.0, 6.0).max(4096.0 * ulp);
+        let dt_max = (span * rng.log10(-4.0, 0.0)).max(64.0 * ulp);
+        let dt_min = dt_max * if rng.chance(0.1) { 1.0 } else { rng.log10(-14.0, 0.0) };
+        let tol = rng.log10(-16.0, 0.0);
+        let cfg = Cfg { t0, t1: t0 + span, dt_min, dt_max, tol };
+        if !(cfg.t1 > cfg.t0 && dt_min > 0.0 && dt_min <= dt_max) {
+            return;
+        }
+        let n = 1 + rng.below(2);
+        let prob = IvpProblem::gen(&mut rng, n, 4);
+        let opts = Opts { budget: 100_000, max_items: 2, mode: if rng.bool() { DimMode::Static } else { DimMode::Dynamic }, order: rng.below(6) as u8, euler_min: rng.bool(), ..Default::default() };
+        let out = solve_real(solver, &cfg, &prob.y0, &prob, &opts);
+        rep.eval();
+        rep.count(&format!("{}/scaled_valid_configs", solver.name()), 1);
+        if dt_min < ulp {
+            rep.count(&format!("{}/scaled_valid_configs_min_step_below_time_resolution", solver.name()), 1);
+        }
+        let case = || J::obj().set("solver", solver.name()).set("cfg", cfg.to_json()).set("builder_call_order", opts.order as u64).set("mode", format!("{:?}", opts.mode)).set("problem", prob.to_json());
+        if let Some((m, l)) = &out.panic {
+            rep.violation(&format!("builder/{}/panic", solver.name()), case(), format!("panicked: '{}' at {}", m, l));
+        } else if let Some((call, e)) = &out.build_err {
+            rep.violation(&format!("builder/{}/complete-config-rejected", solver.name()), case(), format!("valid configuration (t1 > t0, 0 < dt_min <= dt_max, tol > 0) rejected by {}: {}", call, e));
+        } else {
+            if out.n_err() > 0 {
+                rep.inconclusive("scaled-config-first-items-err(C05)");
+            }
+            rep.nontrivial(CaseHash::new("c06-scales").u(solver.idx() as u64).f(cfg.t0).f(cfg.t1).f(dt_min).f(dt_max).f(tol).u(opts.order as u64).0);
+        }
+    }));
     st
 }
 
 pub fn thresholds(ctx: &Ctx, rep: &Report) -> Vec<Threshold> {
     let mut t = vec![];
+    for sv in Solver::ALL {
+        t.push(Threshold { what: format!("{}: valid configurations whose minimum step is below the spacing of the floats at the start time", sv.name()), required: ctx.tier.pick(300.0, 6_000.0), observed: rep.counter(&format!("{}/scaled_valid_configs_min_step_below_time_resolution", sv.name())) as f64 });
+    }
     let per_builder = if ctx.tier == Tier::Quick { 380_000.0 } else { 7_000_000.0 };
     for s in Solver::ALL {
         t.push(Threshold { what: format!("{}: builder sequences driven (static)", s.name()), required: per_builder, observed: rep.counter(&format!("{}/sequence_runs", s.name())) as f64 });
